@@ -23,6 +23,7 @@ type cfg struct {
 	c11      bool  // recovery + crash oracles
 	c13      bool  // checkpoint / rollback ops and oracle
 	maxNoDup int   // depth used when the dump is unavailable
+	alt      bool  // mutate through Put / Delete instead of Update
 	snap     []int // collapse levels of the snapshot op (CopyRoot); enables updates/deletes through the snapshot
 }
 
@@ -58,8 +59,9 @@ func (c cfg) ops() []Op {
 	return ops
 }
 
-func build(sh Shared, ops []Op, h []uint8) (*World, string, bool) {
+func build(sh Shared, ops []Op, h []uint8, alt ...bool) (*World, string, bool) {
 	w := NewWorld(sh)
+	w.Alt = len(alt) > 0 && alt[0]
 	for i, x := range h {
 		f := w.Apply(ops[x])
 		if rt.Replay != nil && os.Getenv("VERIF_TRACE") != "" {
@@ -142,7 +144,7 @@ func runCfg(rep *rt.Report, c cfg, deadline time.Time, classify func(w *World, l
 			}
 		},
 		Run: func(h []uint8) seq.Outcome {
-			w, f, prefixFailed := build(c.shared, ops, h)
+			w, f, prefixFailed := build(c.shared, ops, h, c.alt)
 			var last Op
 			if len(h) > 0 {
 				last = ops[h[len(h)-1]]
@@ -211,6 +213,8 @@ func C09(tier rt.Tier) int {
 		runs = []cfg{
 			{name: "6keys-mem+commit", keys: []int{0, 1, 2, 3, 4, 5}, vals: []string{"a", "b"}, levels: []int{0, 2, 64}, gc: true, reload: true, rootOp: true, depth: 4, maxNoDup: 3},
 			{name: "3keys-deep", keys: []int{0, 1, 2}, vals: []string{"a", "b", "c"}, levels: []int{0, 1, 3}, gc: true, reload: true, rootOp: true, depth: 6, maxNoDup: 4},
+			// the other exported mutators
+			{name: "3keys-put-delete", keys: []int{0, 1, 4}, vals: []string{"a", "b"}, levels: []int{0, 2}, gc: true, reload: true, alt: true, depth: 5, maxNoDup: 4},
 			// a snapshot of the committed trie is a trie of its own: source and snapshot are then changed independently
 			{name: "snapshot-3keys", keys: []int{0, 1, 4}, vals: []string{"a", "b"}, levels: []int{0, 64}, snap: []int{0, 1, 64}, depth: 6, maxNoDup: 4},
 		}
@@ -219,6 +223,7 @@ func C09(tier rt.Tier) int {
 		runs = []cfg{
 			{name: "6keys-mem+commit", keys: []int{0, 1, 2, 3, 4, 5}, vals: []string{"a", "b"}, levels: []int{0, 1, 2, 3, 64}, gc: true, reload: true, rootOp: true, depth: 6, maxNoDup: 4},
 			{name: "3keys-deep", keys: []int{0, 1, 2}, vals: []string{"a", "b", "c"}, levels: []int{0, 1, 2, 3, 64}, gc: true, reload: true, rootOp: true, depth: 9, maxNoDup: 5},
+			{name: "4keys-put-delete", keys: []int{0, 1, 2, 4}, vals: []string{"a", "b"}, levels: []int{0, 1, 64}, gc: true, reload: true, alt: true, depth: 7, maxNoDup: 5},
 			{name: "snapshot-4keys", keys: []int{0, 1, 2, 4}, vals: []string{"a", "b"}, levels: []int{0, 1, 64}, snap: []int{0, 1, 2, 64}, depth: 8, maxNoDup: 5},
 		}
 	}
@@ -226,7 +231,7 @@ func C09(tier rt.Tier) int {
 		runCfg(rep, c, time.Now().Add(per), plainClassify)
 	}
 	rep.Set("dedup", haveDump)
-	rep.Set("rule", "BFS over all histories of {Update(k,v,weight(v)), delete, Commit(level)+batch.Commit for the listed collapse levels, DeleteNodes, reload from (root hash, weight), Root(), and in the snapshot runs: snapshot = New(CopyRoot(level)) of the committed trie, updates/deletes through the snapshot} over 32-byte keys sharing prefixes of 63/3/2/1/0 nibbles; after every operation on a throw-away replay: Weight() = sum of live weights, Root() = independent root, for EVERY block 1..W GetBlockProof returns the cumulative-weight owner and the proof verifies to (root, owner's value); delete of an absent key must return ErrNotFound; a snapshot is judged like the trie itself against the content it was taken with plus its own later writes; states merged on model + dumped trie structure (dirty/collapsed flags, GC sets) + storage keys")
+	rep.Set("rule", "BFS over all histories of {Update(k,v,weight(v)), delete (in the put-delete runs through Put and Delete, whose reported released weight is judged), Commit(level)+batch.Commit for the listed collapse levels, DeleteNodes, reload from (root hash, weight), Root(), and in the snapshot runs: snapshot = New(CopyRoot(level)) of the committed trie, updates/deletes through the snapshot} over 32-byte keys sharing prefixes of 63/3/2/1/0 nibbles; after every operation on a throw-away replay: Weight() = sum of live weights, Root() = independent root, for EVERY block 1..W GetBlockProof returns the cumulative-weight owner and the proof verifies to (root, owner's value); delete of an absent key must return ErrNotFound; a snapshot is judged like the trie itself against the content it was taken with plus its own later writes; states merged on model + dumped trie structure (dirty/collapsed flags, GC sets) + storage keys")
 	rep.Assumption("storage is an in-memory StorageAdapter with atomic batches; Pebble itself is not under test")
 	return rep.Finish()
 }
